@@ -146,3 +146,28 @@ PROPS = {
         'explanation': 'hub-side liveness of unbond proved from explicit invariant premises; non-interference proved structurally (exit handlers do not read stub state); on the implementation: dry-run unbond of every holder on cloned states after every step, withdrawal after epoch+unbonding on clones, every exit operation re-executed under failing / garbage swap and oracle stubs and compared, calls to swap/oracle from exit paths flagged',
     },
 }
+
+# observation fields (token names of the canonical snapshot) each property's theorems speak about:
+# a model/implementation disagreement in one of them is attributed to the property even when it
+# first becomes visible at an operation outside the slice (e.g. the State query right after a slash)
+FIELDS = {
+    'C01': ['hub.raw', 'hist', 'users'],
+    'C02': ['hub.raw', 'hub.q'],
+    'C03': ['hub.q', 'hub.raw', 'batch'],
+    'C04': ['hub.q', 'hub.raw', 'batch'],
+    'C05': ['hub.q', 'hub.raw'],
+    'C06': ['hub.q', 'hub.raw', 'hist'],
+    'C07': ['users', 'batch', 'hist'],
+    'C08': ['hist', 'batch'],
+    'C09': ['hub.raw', 'hub.q', 'batch', 'hist', 'users', 'bsei', 'stsei'],
+    'C10': ['cfg', 'params', 'disp', 'reg'],
+    'C11': ['params', 'legacy'],
+    'C13': ['reg'],
+    'C14': ['rw'],
+    'C15': ['rw'],
+    'C16': ['rw', 'bsei'],
+    'C17': ['disp'],
+    'C18': ['bsei', 'stsei'],
+    'C19': ['rw', 'hub.q', 'hub.raw'],
+    'C20': ['params', 'disp', 'cfg'],
+}
